@@ -18,5 +18,6 @@ def main (args : List String) : IO UInt32 := do
   | ["mqueue"] => Driver.acceptLoop Driver.mqueueAcceptor stdin stdout; return 0
   | ["madder"] => Driver.acceptLoop Driver.madderAcceptor stdin stdout; return 0
   | ["sadder"] => Driver.acceptLoop Driver.sadderAcceptor stdin stdout; return 0
+  | ["fine"] => Driver.acceptLoop Driver.fineAcceptor stdin stdout; return 0
   | ["queue"] => Driver.acceptLoop Driver.queueAcceptor stdin stdout; return 0
   | _ => IO.eprintln "usage: garr_model pure|queue|adder|..."; return 2
